@@ -145,6 +145,11 @@ def build(cfg, f, interp_op):
     cls = Interpolation if interp_op else Integration
     op = cls(f, grid=grid, dim=cfg["dim"])
     sc = StandardCombi(a, b, operation=op, print_level=print_levels.NONE, log_level=log_levels.NONE)
+    # object history: earlier parameter sets requested on the SAME object (a scheme getter with hidden state, e.g. a
+    # memo keyed too coarsely, must not leak an earlier scheme into the one under test)
+    for (l0, l1) in cfg.get("warm", []):
+        with quiet():
+            sc.set_combi_parameters(int(l0), int(l1))
     return sc, grid, op
 
 
@@ -205,7 +210,13 @@ def gen_cfg0(ctx, thorough, far=False):
     bd = r.random() < 0.5
     a = [r.choice(BOX_STARTS) for _ in range(dim)]
     b = [a[d] + r.choice(BOX_LENGTHS) for d in range(dim)]
-    return {"dim": dim, "lmin": lmin, "lmax": lmin + span, "bd": bd, "a": [float(x) for x in a], "b": [float(x) for x in b]}
+    cfg = {"dim": dim, "lmin": lmin, "lmax": lmin + span, "bd": bd, "a": [float(x) for x in a], "b": [float(x) for x in b]}
+    if r.random() < 0.4:   # same level difference with another lmin first, sometimes also a different difference
+        warm = [[lmin + 1, lmin + 1 + span]] if (lmin == 1 or r.random() < 0.5) else [[lmin - 1, lmin - 1 + span]]
+        if r.random() < 0.3:
+            warm.insert(0, [1, 2])
+        cfg["warm"] = warm
+    return cfg
 
 
 def rand_dyadic(r, bits=4, lo=-8, hi=8):
